@@ -8,7 +8,7 @@ cp /repo/go.sum go.sum 2>/dev/null || true
 mkdir -p "$root/bin"
 go build -tags verif -o "$root/bin/archesim" ./cmd/archesim
 case "$1" in
-  ""|all|C01|C09|C16) go build -tags "verif tiny" -o "$root/bin/archesim_tiny" ./cmd/archesim;;
+  ""|all|C01|C09|C16|C03|C05|C06|C07|C08|C11) go build -tags "verif tiny" -o "$root/bin/archesim_tiny" ./cmd/archesim;;
 esac
 case "$1" in
   ""|all|C19) go build -race -tags verif -o "$root/bin/archesim_race" ./cmd/archesim;;
